@@ -246,7 +246,7 @@ type vResp struct {
 
 // vLink does what parser.parseFrugal does, step by step, and records every call of the real
 // Frugal.validate with the tree it was applied to (dumped before the scopes are sorted).
-func vLink(path string, visited []string, cache map[string]*parser.Frugal, calls *[]vCall) (*parser.Frugal, error) {
+func vLink(path string, visited, visitedPaths []string, cache map[string]*parser.Frugal, calls *[]vCall) (*parser.Frugal, error) {
 	file, err := os.Open(path)
 	if err != nil {
 		return nil, err
@@ -257,15 +257,23 @@ func vLink(path string, visited []string, cache map[string]*parser.Frugal, calls
 		return nil, fmt.Errorf("Invalid file: %s", path)
 	}
 	name := parts[0]
-	for _, v := range visited {
-		if v == name {
+	cleaned := filepath.Clean(path)
+	for _, v := range visitedPaths {
+		if v == cleaned {
 			return nil, fmt.Errorf("Circular include: %s", append(visited, name))
+		}
+	}
+	for i, v := range visited {
+		if v == name {
+			return nil, fmt.Errorf("Duplicate file name %s: %s is included by way of %s (includes and generated code are named after the file name)",
+				name, cleaned, visitedPaths[i])
 		}
 	}
 	if c, ok := cache[path]; ok {
 		return c, nil
 	}
 	visited = append(visited[:len(visited):len(visited)], name)
+	visitedPaths = append(visitedPaths[:len(visitedPaths):len(visitedPaths)], cleaned)
 	parsed, err := parser.ParseReader(path, file)
 	if err != nil {
 		return nil, err
@@ -280,7 +288,7 @@ func vLink(path string, visited []string, cache map[string]*parser.Frugal, calls
 		if !strings.HasSuffix(include, ".thrift") && !strings.HasSuffix(include, ".frugal") {
 			return nil, fmt.Errorf("Bad include name: %s", include)
 		}
-		pi, err := vLink(filepath.Join(f.Dir, include), visited, cache, calls)
+		pi, err := vLink(filepath.Join(f.Dir, include), visited, visitedPaths, cache, calls)
 		if err != nil {
 			return nil, fmt.Errorf("Include %s: %s", include, err)
 		}
@@ -375,7 +383,7 @@ func validateOp(q req) interface{} {
 		err error
 	}
 	l, p := hx.Guarded(watchdog, func() lr {
-		_, err := vLink(mainPath, nil, map[string]*parser.Frugal{}, &r.Calls)
+		_, err := vLink(mainPath, nil, nil, map[string]*parser.Frugal{}, &r.Calls)
 		return lr{err}
 	})
 	if p != "" {
